@@ -54,13 +54,21 @@ pub fn run(rep: &Report) {
     // observed taken-bitmaps per spelling for the complement check: taken[f] for CX=1 (so LOOP family is not involved)
     let bitmaps: Mutex<Vec<(String, Jcc, Vec<u8>)>> = Mutex::new(Vec::new());
     let n = spellings.len();
-    par_for(n, 1, |si| {
+    // variant 0: backward target (the complete sweep); 1: the jump targets itself; 2: forward target
+    par_for(n * 3, 1, |job| {
+        let si = job % n;
+        let variant = job / n;
         let sp = &spellings[si];
         let cond = match Jcc::from_spelling(sp) {
             Some(c) => c,
             None => return,
         };
-        let src = format!("start:\nstc\nL: clc\n{} L\n", sp);
+        let (src, lidx) = match variant {
+            0 => (format!("start:\nstc\nL: clc\n{} L\n", sp), 1usize),
+            1 => (format!("start:\nstc\nclc\nL: {} L\n", sp), 2),
+            _ => (format!("start:\nstc\nclc\n{} L\ncmc\nL: hlt\n", sp), 4),
+        };
+        let vtag = ["", ":self-target", ":forward-target"][variant];
         let a = match asm::assemble(&src) {
             Ok(a) => a,
             Err(e) => {
@@ -73,7 +81,7 @@ pub fn run(rep: &Report) {
                 return;
             }
         };
-        if a.code.len() != 3 || a.labels.get("L").map(|x| x.1) != Some(1) {
+        if a.code.len() < 3 || a.labels.get("L").map(|x| x.1) != Some(lidx) {
             rep.inconclusive("unexpected assembly shape");
             return;
         }
@@ -102,7 +110,7 @@ pub fn run(rep: &Report) {
             }
             let taken = jcc_taken(cond, flags, exp[CX]);
             let obs_taken = match &obs {
-                ObsFlow::Jmp(1) => Some(true),
+                ObsFlow::Jmp(t) if *t == lidx => Some(true),
                 ObsFlow::Next => Some(false),
                 _ => None,
             };
@@ -127,7 +135,7 @@ pub fn run(rep: &Report) {
                 comps.push("state-change");
             }
             for c in comps {
-                let sig = format!("jcc:{}:{}", cond.name(), c);
+                let sig = format!("jcc:{}:{}{}", cond.name(), c, vtag);
                 let key = fnv64(sig.as_bytes());
                 agg.add(key, Some(hnum(&[fnv64(line.as_bytes()), flags as u64, cx as u64, fnv64(format!("{:?}", obs).as_bytes()), post[CX] as u64, post[FLAG] as u64])), || {
                     (
@@ -156,7 +164,7 @@ pub fn run(rep: &Report) {
             }
             loc.distinct.insert(hnum(&[cond as u64, (f & (CF | ZF | SF | OF | PF)) as u64]));
         }
-        if cx_dep && !rejected {
+        if cx_dep && !rejected && variant != 2 {
             // all 2^16 CX × ZF (and the other flags at two settings)
             for cx in 0..=0xFFFFu16 {
                 for fl in [0u16, ZF, 0xFFFF & !ZF, 0xFFFF] {
@@ -165,7 +173,9 @@ pub fn run(rep: &Report) {
             }
             loc.distinct.insert(hnum(&[cond as u64, 0xC0]));
         }
-        if rejected {
+        if rejected && variant != 0 {
+            // reported once, by the backward variant
+        } else if rejected {
             rep.fail(Failure {
                 sig: format!("jcc:{}:not-executable", sp.to_ascii_lowercase()),
                 what: format!("C06: spelling `{}` is accepted by the assembler but its emitted line `{}` is rejected by the interpreter, so the jump can never be taken", sp, line),
@@ -176,15 +186,17 @@ pub fn run(rep: &Report) {
             // whole-memory check: no jump may write memory
             if b.vm.mem[..] != b.shadow[..] {
                 rep.fail(Failure {
-                    sig: format!("jcc:{}:mem", cond.name()),
+                    sig: format!("jcc:{}:mem{}", cond.name(), vtag),
                     what: format!("C06: `{}` wrote to memory", line),
                     witness: format!("{{\"kind\": \"ir\", \"line\": {}}}", json_str(&line)),
                     core_item: Some(line.clone()),
                 });
             }
-            bitmaps.lock().unwrap().push((sp.clone(), cond, bitmap));
+            if variant == 0 {
+                bitmaps.lock().unwrap().push((sp.clone(), cond, bitmap));
+            }
         }
-        if si == 2 {
+        if si == 2 && variant == 0 {
             rep.sample(format!("source `{} L` -> ir `{}` executed under all 65536 flag words", sp, line));
         }
         agg.flush(rep);
@@ -225,4 +237,4 @@ pub fn run(rep: &Report) {
     rep.sample("`loopne L` with CX=0x0001, ZF=0 -> CX=0x0000, not taken".to_string());
 }
 
-pub const RULE: &str = "every jump/loop spelling of syntax.md in lower and upper case (cross-checked against the terminals scraped from the grammar) is assembled by the real Preprocessor and its emitted line executed under all 2^16 flag words; JCXZ/LOOP/LOOPE/LOOPNE additionally under all 2^16 CX values x ZF x two settings of the other flags. Oracle: Intel predicate table; nothing but CX (LOOP family) may change; complements and synonyms compared observed-vs-observed. Distinct = (condition, CF/ZF/SF/OF/PF combination).";
+pub const RULE: &str = "every jump/loop spelling of syntax.md in lower and upper case (cross-checked against the terminals scraped from the grammar) is assembled by the real Preprocessor in three placements (target behind the jump, the jump targeting itself, target ahead) and its emitted line executed at its own index under all 2^16 flag words; JCXZ/LOOP/LOOPE/LOOPNE additionally under all 2^16 CX values x ZF x two settings of the other flags. Oracle: Intel predicate table; nothing but CX (LOOP family) may change; complements and synonyms compared observed-vs-observed. Distinct = (condition, CF/ZF/SF/OF/PF combination).";
